@@ -115,7 +115,9 @@ func c10Alphabet(u []c10Ver) []string {
 	}
 	a = append(a, "merge batch [k0.e2, k1.e1]", "merge batch [k0.future, k1.expired]",
 		"Log k0 (expiry 0 -> retention)", "Log k0 (expiry 2s)", "Log k1 (expiry 10s > retention)",
-		"GC", "restart from snapshot", "advance 1", "advance 3", "advance 5")
+		"GC", "restart from snapshot", "advance 1", "advance 3", "advance 5",
+		"pipeline run on k0 edits the store built from the entry (Delete, Set) and does not log",
+		"pipeline run on k0 edits the store built from the entry and logs it")
 	return a
 }
 
@@ -278,6 +280,39 @@ func c10Run(t *testing.T, h []int) (res seqx.Result) {
 				time.Sleep(3 * c10U)
 			case x == nu+9:
 				time.Sleep(5 * c10U)
+			case x == nu+10 || x == nu+11:
+				es, err := y.l.Query(QReceiver(c10Keys[0].r), QGroupKey(c10Keys[0].gk))
+				if err != nil || len(es) != 1 {
+					res.Skip = true
+					return
+				}
+				// what the edited store must hold, computed on a private copy
+				want := map[string]*pb.ReceiverDataValue{}
+				for k, v := range es[0].ReceiverData {
+					want[k] = v
+				}
+				var gone string
+				for _, k := range []string{"s", "n", "f", "i"} {
+					if _, ok := want[k]; ok {
+						gone = k
+						break
+					}
+				}
+				delete(want, gone)
+				want["added"] = &pb.ReceiverDataValue{Value: &pb.ReceiverDataValue_DoubleVal{DoubleVal: 1.5}}
+				st := NewStore(es[0])
+				if gone != "" {
+					st.Delete(gone)
+				}
+				st.SetFloat("added", 1.5)
+				if x == nu+11 {
+					if err := y.l.Log(c10Keys[0].r, c10Keys[0].gk, []uint64{9, uint64(step)}, nil, st, 0); err != nil {
+						fail("log-error", err.Error())
+					}
+					if cur, ok := y.m[0]; !ok || !cur.ts.After(now) {
+						y.m[0] = c10Ent{now, now.Add(c10Ret), c10DataStr(want), fmt.Sprint([]uint64{9, uint64(step)})}
+					}
+				}
 			}
 			if res.Viol != "" {
 				return
